@@ -5,7 +5,8 @@ from .. import pure, common as C
 
 KINDS = {0: "healthy", 1: "close-in-handshake", 2: "abrupt-loss", 3: "orderly-close", 4: "http-404", 5: "stall",
          6: "bad-frame", 7: "no-answer-to-connect", 8: "refused", 9: "bad-frame-with-request-in-flight",
-         10: "stall-in-tls-handshake"}
+         10: "stall-in-tls-handshake", 11: "silent-server-keepalive-timeout", 12: "reset-in-handshake",
+         13: "tls-garbage", 14: "wrong-accept-key"}
 
 
 def _split(res):
@@ -34,7 +35,7 @@ class C19(pure.Spec):
             "tuple x three advance/reset patterns exhaustively, plus random tuples up to Duration::MAX and u32::MAX "
             "(overflow panics included), results compared exactly with Client/Backoff.v. (2) the real client_main_inner "
             "against a scripted fake server on loopback (kinds: close during handshake, abrupt loss, orderly close, 404, "
-            "stalled handshake, stalled TLS handshake (such a script runs over wss://), undecodable frame, never-answered Connect, refused connection = listener closed, healthy), local connections opened while the "
+            "other HTTP statuses, stalled handshake, stalled TLS handshake (such a script runs over wss://), garbage instead of a ServerHello, wrong Sec-WebSocket-Accept, TCP reset during the handshake, silent server (keepalive timeout; such a script runs with keepalive 150/300 ms), undecodable frame, never-answered Connect, refused connection = listener closed, healthy), local connections opened while the "
             "tunnel is down: the delays between the server failing attempt k and accepting attempt k+1 (real time, "
             "tolerance -25/+150 ms +10 %; a gap that is too long is re-run up to 4 times and the per-gap minimum counts), the final result, the "
             "number of attempts and which local connections got their bytes echoed are compared with the retry-loop "
